@@ -7,7 +7,7 @@ operand shapes (deduplicated by reached link-table state), larger ones randomly.
 """
 import random
 
-from .. import env, monitors
+from .. import env, monitors, workload
 
 PROPERTY = "C07"
 LEVEL = "exploration"
@@ -412,6 +412,77 @@ def unusual_holders(res, rng, n_seq):
             res.violation("C07:holder:deepcopy:original-changed", f"requests made inside a deep copy changed the project it was copied from (history {history[-6:]})", {"kind": kind, "history": history})
 
 
+def hubs_and_twins(res, rng, n):
+    """(1) A MultiCtl as the hub of 10-16 links (its mapping table has 16 entries): repeated and overlapping list requests
+    through the method and through both operators - already connected pairs are no-ops, new ones are made, in any form.
+    (2) Two MetaModules whose embedded projects have identical content, saved and loaded: requests inside one embedded
+    project leave the other one alone."""
+    import rv.api as api
+    for s in range(n):
+        p = api.Project()
+        hub = p.new_module(api.m.MultiCtl)
+        amps = [p.new_module(api.m.Amplifier) for _ in range(16)]
+        k = rng.randint(10, 15)
+        p.connect(hub, amps[:k])
+        want = set(monitors.edge_multiset(p))
+        history = [["hub-links", k]]
+        res.count("hub_sequences")
+        for step_ in range(rng.randint(2, 6)):
+            lo = rng.randint(0, 12)
+            part = amps[lo:lo + rng.randint(1, 6)]
+            part = [a for a in part if a.index - 1 < 17][:max(1, 16 - 0)]
+            part = [a for a in part if (hub.index, a.index) in want or len({b for (f_, b) in want if f_ == hub.index}) < 16]
+            form = rng.choice(("method", "rshift", "lshift-each"))
+            history.append([form, [a.index for a in part]])
+            try:
+                if form == "method":
+                    p.connect(hub, part)
+                elif form == "rshift":
+                    hub >> (part if len(part) > 1 else part[0])
+                else:
+                    for a in part:
+                        a << hub
+            except Exception as e:
+                res.violation(f"C07:hub:request-raised:{form}:{type(e).__name__}", f"MultiCtl hub with {len([1 for (f_, b) in want if f_ == hub.index])} links: {form} request to {[a.index for a in part]} "
+                                                                                  f"(some already connected) raised {e!r}", {"history": history})
+                break
+            for a in part:
+                want.add((hub.index, a.index))
+            res.count("ops_applied")
+            res.count("consistency_evaluations")
+            got = monitors.edge_multiset(p)
+            if monitors.links_consistent(p) or set(got) != want or len(got) != len(set(got)):
+                res.violation("C07:hub:wrong-edges", f"after {history[-1]}: {sorted(set(got) ^ want)[:6]}, duplicates {len(got) - len(set(got))}", {"history": history})
+                break
+    for s in range(n):
+        def inner_project():
+            q = api.Project()
+            g, a = q.new_module(api.m.Generator), q.new_module(api.m.Amplifier)
+            q.connect(g, a)
+            q.connect(a, q.output)
+            return q
+        outer = api.Project()
+        outer.new_module(api.m.MetaModule, project=inner_project())
+        outer.new_module(api.m.MetaModule, project=inner_project())
+        loaded = workload.load(outer.read()) if s % 2 == 0 else outer.clone()
+        one, two = loaded.modules[1].project, loaded.modules[2].project
+        before_two = (state_of(two), two.read())
+        res.count("twin_sequences")
+        history = []
+        for _ in range(rng.randint(1, 5)):
+            f, t = rng.randrange(3), rng.randrange(3)
+            dis = rng.random() < 0.4
+            history.append([f, t, dis])
+            one.connect(one.modules[f], ~one.modules[t] if dis else one.modules[t])
+            res.count("ops_applied")
+        res.count("consistency_evaluations")
+        if (state_of(two), two.read()) != before_two:
+            res.violation("C07:twin-embedded-projects:other-changed", f"requests {history} inside the embedded project of one MetaModule changed the link tables of its twin "
+                                                                      f"(identical content, {'loaded' if s % 2 == 0 else 'cloned'})", {"history": history})
+        elif monitors.links_consistent(one) or monitors.links_consistent(two):
+            res.violation("C07:twin-embedded-projects:inconsistent", f"after {history}", {"history": history})
+
+
 def mixed_sequences(res, rng, n_seq, max_len):
     """Link requests interleaved with the other things a project lives through: new modules (appended or filling an empty
     position), empty positions, saving (object kept), saving + loading (continue on the loaded project).  Modules are
@@ -559,6 +630,7 @@ def run_shard(spec_, res):
     elif spec_["part"] == "mixed":
         mixed_sequences(res, rng, spec_["n_seq"], spec_["max_len"])
         unusual_holders(res, rng, max(9, spec_["n_seq"] // 40))
+        hubs_and_twins(res, rng, max(10, spec_["n_seq"] // 40))
     else:
         random_sequences(res, rng, spec_["n_seq"], spec_["max_n"], spec_["max_len"])
         operator_chains(res, rng, spec_["n_seq"] // 3, spec_["max_n"])
